@@ -396,6 +396,157 @@ def check_lifecycle(pid, tier, seed):
                     "TLC as the judge of MonC12 and ClientLifecycle.tla"], time.time() - t0, violations, {"log": log})
     return 1 if violations else 0
 
+
+# ------------------------------------------------------------------------------------------------
+# reconnect back-off (C19): Backoff.tla + the real tokio client on a paused clock
+
+STAB_REAL_US = 30000          # the stability period used in replays (real time: the client measures lifetimes with std Instant)
+LONG_LIFE_REAL_US = 45000
+
+def backoff_cfg(defects, export, maxhist, cfgset="Cfg_All"):
+    lines = ["SPECIFICATION Spec", "CONSTANTS", "  CfgSet <- %s" % cfgset, "  Lifetimes <- Life_All", "  MaxHist = %d" % maxhist, "  DurMax = 1000000000",
+             "  WaitLimit = 100000000", "  Defects = {%s}" % ", ".join('"%s"' % d for d in defects), "  ExportOn = %s" % ("TRUE" if export else "FALSE"),
+             "VIEW View", "INVARIANT MonitorQuiet", "INVARIANT NeverDies", "INVARIANT WaitWithinMaximum", "INVARIANT Export", "CHECK_DEADLOCK FALSE"]
+    return "\n".join(lines) + "\n"
+
+
+def backoff_script(cfg, hist, src):
+    """A behaviour of Backoff.tla (configuration + outcomes of the attempts) -> a script for the real tokio client."""
+    c = {"src": src, "auto_broker": False, "jitter": cfg["jitter"], "slack_us": 1000, "life_slack_us": 10000, "connect_timeout_ms": 100000000,
+         "stable_us": 0 if cfg["stableUs"] == 0 else STAB_REAL_US}
+    for name, key in (("base", "baseUs"), ("max", "maxUs")):
+        v = cfg[key]
+        if v == 1000000000: c[name + "_tok"] = "durmax"
+        elif v == 600000000: c[name + "_tok"] = "halfplus"
+        else: c[name + "_us"] = v
+    modes, total_us, expect = [], 0, []
+    for h in hist:
+        if h["a"] == "Fail": modes.append("refuse")
+        else: modes.append("life:%d" % (LONG_LIFE_REAL_US if h["lifeUs"] > cfg["stableUs"] and h["lifeUs"] > 1000 else 0))
+        if h.get("panic") or h.get("cap", 0) > 100000000:
+            break
+        total_us += h.get("cap", 0)
+        expect.append({"wait": h.get("wait"), "cap": h.get("cap")})
+    steps = [{"a": "ConnectPlan", "mode": "hang"}, {"a": "ConnectPlanSeq", "modes": modes}, {"a": "Start"},
+             {"a": "Settle", "ms": total_us // 1000 + 500}, {"a": "Stop"}, {"a": "Settle", "ms": 200}]
+    return {"cfg": c, "steps": steps, "expect": expect}
+
+
+BACKOFF_REGRESSIONS = [
+    backoff_script({"baseUs": 10000000, "maxUs": 2000000, "stableUs": 2000000, "jitter": "none"},
+                   [{"a": "Fail", "cap": 2000000}, {"a": "Fail", "cap": 4000000}, {"a": "Fail", "cap": 8000000}, {"a": "Ok", "lifeUs": 1000, "cap": 10000000},
+                    {"a": "Ok", "lifeUs": 2001000, "cap": 2000000}, {"a": "Fail", "cap": 4000000}], "S3:f14a-base-above-max"),
+    backoff_script({"baseUs": 0, "maxUs": 2000000, "stableUs": 2000000, "jitter": "uniform"}, [{"a": "Fail", "cap": 0}, {"a": "Fail", "cap": 0}], "S3:f14b-zero-base-uniform-jitter"),
+    backoff_script({"baseUs": 600000000, "maxUs": 1000000000, "stableUs": 2000000, "jitter": "none"}, [{"a": "Fail", "cap": 600000000}], "S3:f14c-doubling-overflow"),
+    backoff_script({"baseUs": 1000000, "maxUs": 8000000, "stableUs": 2000000, "jitter": "none"},
+                   [{"a": "Fail", "cap": 1000000}, {"a": "Fail", "cap": 2000000}, {"a": "Fail", "cap": 4000000}, {"a": "Ok", "lifeUs": 1000, "cap": 8000000},
+                    {"a": "Fail", "cap": 8000000}, {"a": "Ok", "lifeUs": 2001000, "cap": 1000000}, {"a": "Fail", "cap": 2000000}, {"a": "Fail", "cap": 4000000}], "S3:backoff-doubling-and-reset"),
+]
+
+
+def random_backoff_scripts(seed, n):
+    import random
+    rng = random.Random(seed)
+    out = []
+    for i in range(n):
+        base = rng.choice([0, 1, 250, 999, 1000, 1500, 20000, 1000000, 1234567, 3000000, 9999999, 50000000])
+        mx = rng.choice([0, 1, 999999, 1000000, 1000001, 2500000, 7000000, 64000000, 90000000])
+        stab = rng.choice([0, 2000000])
+        jit = rng.choice(["none", "uniform"])
+        lo, hi = min(base, mx), max(max(base, mx), 1000000)
+        hist, cap = [], lo
+        for k in range(rng.randint(2, 9)):
+            if rng.random() < 0.7:
+                hist.append({"a": "Fail", "cap": cap})
+            else:
+                life = rng.choice([1000, 2001000])
+                if life > stab: cap = lo
+                hist.append({"a": "Ok", "lifeUs": life, "cap": cap})
+            cap = min(cap * 2, hi)
+        out.append(backoff_script({"baseUs": base, "maxUs": mx, "stableUs": stab, "jitter": jit}, hist, "S2:backoff:%d" % i))
+    return out
+
+
+def observed_waits(trace):
+    """run -> list of waits (us) read from the event stream of the real client"""
+    waits = collections.defaultdict(list)
+    end = {}
+    with open(trace) as f:
+        for line in f:
+            e = json.loads(line)
+            if e["ev"] != "ClientEv": continue
+            r = e["run"]
+            if e["kind"] in ("Failure", "Disconnection"): end[r] = e["tus"]
+            elif e["kind"] == "Attempt" and r in end: waits[r].append(e["tus"] - end.pop(r))
+            elif e["kind"] == "Stopped": end.pop(r, None)
+    return waits
+
+
+def check_backoff(pid, tier, seed):
+    t0 = time.time()
+    log = {}
+    workdir = os.path.join(WORK, pid)
+    os.makedirs(workdir, exist_ok=True)
+    build_harness(log)
+    known = load_known()
+    big = tier == "thorough"
+    mc = {"instances": [], "distinct": 0, "generated": 0}
+    main = run_tlc(os.path.join(workdir, "bo-main"), SPEC, "Backoff", backoff_cfg([], False, 6 if big else 5), workers=TLC_WORKERS, timeout=3000, java_opts="-Xss1g -Xmx12g")
+    if not main["ok"]:
+        sys.stdout.write(main["text"][-3000:])
+        raise ToolError("Backoff.tla (repaired behaviour) violates C19: the specification and the code must be re-examined")
+    mc["instances"].append({"name": "repaired behaviour: every configuration x every history of %d attempts" % (6 if big else 5), "distinct": main.get("distinct", 0), "generated": main.get("generated", 0), "wall_s": main["wall_s"], "ok": True})
+    mc["distinct"] += main.get("distinct", 0); mc["generated"] += main.get("generated", 0)
+    for defect in ("initial-period-before-normalize", "zero-range-jitter", "unchecked-doubling"):
+        r = run_tlc(os.path.join(workdir, "bo-" + defect[:8]), SPEC, "Backoff", backoff_cfg([defect], False, 3), workers=4, timeout=600)
+        found = (not r["ok"]) and ("MonitorQuiet" in r["text"] or "NeverDies" in r["text"])
+        mc["instances"].append({"name": "defect switched on: " + defect, "found": found, "distinct": r.get("distinct", 0), "wall_s": r["wall_s"]})
+        if not found:
+            raise ToolError("Backoff.tla no longer exposes the recorded defect '%s'" % defect)
+    exp = run_tlc(os.path.join(workdir, "bo-export"), SPEC, "Backoff", backoff_cfg([], True, 5 if big else 4), workers=TLC_WORKERS, timeout=3000, java_opts="-Xss1g -Xmx12g")
+    if not exp["ok"]:
+        sys.stdout.write(exp["text"][-3000:])
+        raise ToolError("Backoff.tla export instance failed")
+    s1_all = [backoff_script(b["cfg"], b["hist"], "S1:backoff:%d" % i) for i, (_, b) in enumerate(tla_json_lines(exp["text"], "SCRIPT"))]
+    mc["instances"].append({"name": "behaviour export", "distinct": exp.get("distinct", 0), "generated": exp.get("generated", 0), "wall_s": exp["wall_s"], "ok": True, "behaviours": len(s1_all)})
+    # long lifetimes burn real time (45 ms each): bound the number of replayed behaviours
+    s1 = sample_evenly(s1_all, 3000 if big else 500)
+    s2 = random_backoff_scripts(seed, 1500 if big else 200)
+    scripts = BACKOFF_REGRESSIONS + s1 + s2
+    trace, sp, stats = client_run(scripts, workdir, "backoff")
+    verdict, tlc = trace_check(trace, [pid], os.path.join(workdir, "tc"))
+    breaches = list(verdict["errs"][pid])
+    violations, seen = report(pid, breaches, trace, sp, known, workdir)
+    # spec -> code: the waits Backoff.tla predicts for each exported behaviour against the waits the client made
+    obs = observed_waits(trace)
+    drift, compared = [], 0
+    for i, sc in enumerate(scripts, 1):
+        for k, ex in enumerate(sc.get("expect", [])):
+            if k >= len(obs.get(i, [])):
+                if ex["cap"] <= 100000000: drift.append({"run": i, "wait": k, "what": "no attempt observed", "src": sc["cfg"]["src"]})
+                break
+            w = obs[i][k]; compared += 1
+            ok = (ex["cap"] <= w <= ex["cap"] + 1000) if sc["cfg"]["jitter"] == "none" else (0 <= w <= ex["cap"] + 1000)
+            if not ok: drift.append({"run": i, "wait": k, "observed_us": w, "predicted_cap_us": ex["cap"], "src": sc["cfg"]["src"]})
+    for d in drift[:5]:
+        print("DRIFT property=%s the client's wait differs from what Backoff.tla predicts: %s" % (pid, json.dumps(d)))
+    samples = [{"cfg": sc["cfg"], "attempt_outcomes": sc["steps"][1]["modes"], "observed_waits_us": obs.get(i + 1, [])} for i, sc in ((0, scripts[0]), (len(scripts) // 2, scripts[len(scripts) // 2]), (len(scripts) - 1, scripts[-1]))]
+    coverage = {"states": max(1, mc["distinct"]), "transitions": max(1, mc["generated"]), "traces_validated_against_impl": stats["runs"], "samples": samples,
+                "exhaustive": True, "model_checking": {"instances": mc["instances"], "behaviours_exported": len(s1_all), "behaviours_replayed": len(s1)},
+                "scenario_sources": {"S1_tlc_behaviours": len(s1), "S2_random": len(s2), "S3_regression": len(BACKOFF_REGRESSIONS)},
+                "events_validated": verdict["events"], "waits_compared_with_spec": compared, "drift": len(drift), "first_drift": drift[:3],
+                "panics_observed": stats["panics"], "breaches": len(breaches), "known_findings_seen": sorted(set(seen)),
+                "explanation": ("TLC checked Backoff.tla (normalize, initial period, doubling, clamp, jitter, reset rule) with MonC19 composed over every configuration of the alphabet x every "
+                                "history of attempt outcomes and connection lifetimes (%d distinct states), and rediscovered each of the three repaired defects when it is switched back on; "
+                                "%d executions of the real tokio client (paused tokio clock: waits are exact virtual times; lifetimes in real time) were judged by the same MonC19, "
+                                "and %d waits were compared with the waits the specification predicts (%d differ)") % (mc["distinct"], stats["runs"], compared, len(drift))}
+    write_evidence(pid, tier, seed, coverage,
+                   ["tokio timers have 1 ms granularity: a wait may be up to 1 ms longer than the period (slackUs)",
+                    "the client measures connection lifetimes with std::time::Instant (real time): replays use a 30 ms stability period, connections that end at once or after 45 ms, and a 10 ms tolerance",
+                    "the threaded client shares MqttClientImpl::advance_reconnect_period and the reset rule; only its sleeping differs and is not observed here",
+                    "TLC as the judge of MonC19 and Backoff.tla"], time.time() - t0, violations, {"log": log})
+    return 1 if violations else 0
+
 # ------------------------------------------------------------------------------------------------
 # engine properties
 
@@ -543,6 +694,8 @@ def main(argv):
             return check_engine_property(pid, tier, seed)
         if pid == "C12":
             return check_lifecycle(pid, tier, seed)
+        if pid == "C19":
+            return check_backoff(pid, tier, seed)
         print("no check registered for", pid)
         return 2
     except ToolError as e:
